@@ -788,11 +788,24 @@ func probeStream() string {
 	return "other"
 }
 
+// probe: does the generic copy path of Prototype.Map AssignNode work on a fresh builder (fix e205164)?
+func probeMapCopy() string {
+	v := lib.Map(lib.Entry{K: "a", V: lib.Int(1)})
+	err := lib.Safely(func() error { return basicnode.Prototype.Map.NewBuilder().AssignNode(lib.Foreign(v)) })
+	switch {
+	case err == nil:
+		return "ok"
+	case lib.IsPanic(err):
+		return "panic"
+	}
+	return "other"
+}
+
 func main() {
 	fl := lib.ParseFlags()
 	out := lib.OpenOut(fl.Out)
 	defer out.Close()
-	out.Case("probe0", "probe", probeStream())
+	out.Case("probe0", "probe", "stream="+probeStream()+";mapcopy="+probeMapCopy())
 	if fl.Replay != "" {
 		for _, line := range lib.ReadLines(fl.Replay) {
 			f := strings.Split(line, "\t")
